@@ -447,6 +447,27 @@ def check(ctx):
         else:
             ctx.fail(rec, rn, f"n_evals is advanced {len(incs)} times on the path ending at this return (expected exactly once)", construct=f"n_evals increments on path -> {canon(rn.value)}: {len(incs)}")
 
+    # ------------------------------------------------------------------ R8
+    ctx.rule("R8", "finalize trims the per-row arrays consistently to the filled rows", floor=1)
+    fin = R.logger_cls.find_method("finalize")
+    if fin is None:
+        ctx.note("no finalize method")
+        ctx.rules["R8"].floor = 0
+    else:
+        ups = {}
+        for t, v, s, k in iter_stores(fin.node):
+            a = self_attr_of(t)
+            if a in arrays and isinstance(v, ast.Subscript) and self_attr_of(v.value) == a and isinstance(v.slice, ast.Slice):
+                ups[a] = (canon(v.slice.lower) if v.slice.lower else "0", canon(v.slice.upper), s)
+            elif a in arrays:
+                ctx.fail(fin, s, f"finalize re-binds {a} to something other than a prefix of itself", construct=f"finalize {a} <- {canon(v)[:40]}")
+        bounds = {(lo, up) for lo, up, _s in ups.values()}
+        if len(bounds) > 1:
+            ctx.fail(fin, fin.node, f"finalize trims the per-row arrays to different lengths {sorted(bounds)}: records get out of step", construct="finalize bounds " + "|".join(sorted(up for lo, up in bounds)))
+        elif bounds:
+            lo, up = next(iter(bounds))
+            ctx.check(lo == "0" and up in ("(1 + self.Xn)",), fin, fin.node, f"{len(ups)} arrays trimmed to [:Xn+1]", f"finalize trims to [{lo}:{up}], not to the filled rows [:Xn+1]: the last record is lost or empty rows are kept", construct=f"finalize bound {lo}:{up}")
+
     ctx.assume("numpy semantics: argwhere of a rank-1 mask yields row indices; np.append(a, b, axis=0) keeps a's rows first")
     ctx.assume("per-row arrays are exactly those allocated in FunctionLogger.__init__ with cache_size rows")
 
